@@ -730,6 +730,19 @@ func c12KnownValue(c *Ctx, rule string) {
 							}
 						}
 					}
+					// the same exemption table spelled as comparisons: `name != "sort"` facts (a negated
+					// `name == "sort" || …` chain, which is what a constant list look-up is read as)
+					if be, isBin := ge.(*ast.BinaryExpr); isBin && (be.Op == token.EQL && !gt || be.Op == token.NEQ && gt) {
+						if nm, isC := constString(info, be.Y); isC {
+							if _, pt := passThrough[nm]; !pt {
+								bad = "function " + nm + " is exempt although it changes values"
+							}
+							continue
+						}
+					}
+					if be, isBin := ge.(*ast.BinaryExpr); isBin && be.Op == token.LOR && !gt {
+						continue // the chain itself; its members are judged one by one
+					}
 					bad = "guarded by `" + exprStr(a.E) + "`"
 				}
 			}
@@ -1362,6 +1375,13 @@ func c04SetAppend(c *Ctx, rule string) {
 		}
 		return true
 	})
+	// … and the list it hands back is the one it filled under that test: a shortcut that returns
+	// anything else (a copy of the names it was given when the list is still empty) skips the test
+	for _, r := range returnsIn(fi.Decl.Body.List) {
+		if len(r.Results) == 1 && !isNilIdent(info, r.Results[0]) && objOf(info, r.Results[0]) != paramObj(fi, 0) {
+			bad = "returns `" + exprStr(r.Results[0]) + "` instead of the list it filled"
+		}
+	}
 	c.Check(n >= 1 && bad == "", rule, "appendToSlice:never adds an element that is already there", fi.Decl.Pos(), itoa(n)+" append(s), each under !slices.Contains(dst, v)",
 		"appendToSlice can store a duplicate ("+bad+"): the label lists are treated as sets everywhere else (one removal per name), so a label listed twice in without(...)/ignoring(...) stays excluded after a later step re-adds it")
 }
